@@ -91,8 +91,92 @@ pub fn directed(ctx: &WorkerCtx) -> Result<(), Fail> {
             }
         }
     }
+    // longest texts: checkerboard-fragmented placements (32 men, every rank `1p1p1p1p`-like,
+    // 71 bytes of placement) with rights and four-digit clocks: 85-88 byte FENs, which random
+    // play practically never reaches
+    let mut g = Expand(ctx.wseed(505));
+    let n = ctx.tier.pick(300, 6000);
+    let mut made = 0;
+    for _ in 0..n * 4 {
+        if made >= n {
+            break;
+        }
+        let Some(p) = fragmented(&mut g) else { continue };
+        let v = json!({"directed": "skeleton", "fen": p.fen()});
+        guarded(|| one(&p)).unwrap_or_else(Err).map_err(|d| fail(v, format!("C05 {d}")))?;
+        made += 1;
+        st.eval(1);
+        st.nontrivial(digest(&p.fen()));
+        if p.fen().len() >= 80 {
+            st.class("directed: FEN text of 80 bytes or more");
+        }
+    }
     let _ = bb::Pos::A1;
     Ok(())
+}
+
+/// a playable position on a checkerboard pattern of 32 occupied squares
+fn fragmented(g: &mut Expand) -> Option<Pos> {
+    let parity = g.below(2) as u8;
+    let occ: Vec<u8> = (0..64u8).filter(|s| (s % 8 + s / 8) % 2 == parity).collect();
+    let mut p = Pos::empty();
+    // kings: with parity 0 a1/c1/e1/g1 and b8/d8/f8/h8 are occupied squares, with parity 1 the others
+    let wk = if parity == 0 { 4u8 } else { [1u8, 3, 5, 7][g.below(4) as usize] };
+    let bk = if parity == 1 { 60u8 } else { [57u8, 59, 61, 63][g.below(4) as usize] };
+    let mut colors: Vec<C> = (0..30).map(|i| if i < 15 { C::White } else { C::Black }).collect();
+    for i in (1..colors.len()).rev() {
+        let j = g.below(i as u64 + 1) as usize;
+        colors.swap(i, j);
+    }
+    let mut ci = 0;
+    let mut pawns = [0u8; 2];
+    for &s in &occ {
+        if s == wk {
+            p.sq[s as usize] = Some((C::White, P::King));
+            continue;
+        }
+        if s == bk {
+            p.sq[s as usize] = Some((C::Black, P::King));
+            continue;
+        }
+        let c = colors[ci];
+        ci += 1;
+        let back = s / 8 == 0 || s / 8 == 7;
+        let k = match g.below(6) {
+            0 | 1 | 2 if !back && pawns[c as usize] < 8 => {
+                pawns[c as usize] += 1;
+                P::Pawn
+            }
+            3 => P::Knight,
+            4 => P::Bishop,
+            5 => P::Rook,
+            _ => P::Knight,
+        };
+        p.sq[s as usize] = Some((c, k));
+    }
+    // rights where king and rook happen to be at home
+    if parity == 0 {
+        if p.sq[0] == Some((C::White, P::Rook)) {
+            p.castle[1] = true;
+        } else if g.below(2) == 0 {
+            p.sq[0] = Some((C::White, P::Rook));
+            p.castle[1] = true;
+        }
+    } else if p.sq[56].map_or(false, |x| x.0 == C::Black) {
+        p.sq[56] = Some((C::Black, P::Rook));
+        p.castle[3] = true;
+    }
+    p.turn = if g.below(2) == 0 { C::White } else { C::Black };
+    p.half = [9999u32, 1234, 100, 99, 1000][g.below(5) as usize];
+    p.full = [9999u32, 9998, 1000, 4321][g.below(4) as usize];
+    if !p.unplayable_reasons().is_empty() {
+        p.turn = p.turn.flip();
+    }
+    if p.unplayable_reasons().is_empty() {
+        Some(p)
+    } else {
+        None
+    }
 }
 
 pub fn replay(v: &Value) -> Result<(), String> {
